@@ -11,6 +11,8 @@ def cubes(tier):
         # three files, two with the same content: a hard-linked duplicate has a link count of 3 or more
         out += [dict(cls=c, link="copy", prior_link="hardlink", state=True, nkeys=3, _w=3) for c in ("local", "base")]
         out += [dict(cls="local", link="hardlink", prior_link="copy", state=True, nkeys=3, _w=3)]
+        # a symlink to a cache object that already has other hard links (duplicate content) must still be re-linked as a hardlink
+        out += [dict(cls="local", link="hardlink", prior_link="symlink", state=True, nkeys=3, _w=3)]
         return out
     out = [dict(cls=c, link=l, prior_link=pl, state=st, nkeys=2) for c in ("local", "base") for l in LINKS for pl in LINKS for st in (True, False)]
     out += [dict(cls="local", link=l, prior_link=pl, state=True, nkeys=3, _w=3) for l in LINKS for pl in LINKS]
